@@ -8,7 +8,7 @@ import GB.Base.LTS
                         StandardTranscoder.Bind      → `bind` (marshaler choice, SSE negotiation, refusals)
                         standardResponseTranscoder.ContentType → `responseContentType` (fixed code; D15 = `…PreFix`)
   webbridge/http.go     TranscodedHTTPBridge.ServeHTTP / httpStream.send → `httpOutcome`
-  webbridge/websocket.go gwsStream.send → `wsOut`; websocketError → `websocketError`; closeReason → `closeReason`;
+  webbridge/websocket.go gwsStream.send → `wsOut`; websocketError → `websocketError`; closeReason → `closeReasonWhole` (= `closeReason` ∘ `toValidUTF8`);
                         gwsStream.Recv / gwsHandler.OnMessage / ServeHTTP's close(done) → the LTS `step`
   gws                   Conn.emitError truncates the close payload to 125 bytes → `gwsClosePayload` (environment)
 -/
@@ -116,6 +116,19 @@ def statusContentType (b : Bound) : Bytes := b.respM.mime
 /-- …and as it was before the fix (ignores `isSSE`). -/
 def responseContentTypePreFix (b : Bound) : Bytes := b.respM.mime
 
+/-! ## where record framing is applied
+
+  `standardResponseTranscoder.Transcode` marshals one message (or status) and returns the marshaler's bare
+  document — for every binding, SSE or not. Framing is the business of the stream encoders only
+  (`jsonEncoder.Encode` appends the line feed, `sseResponseStream.Transcode` wraps into `data:…\n\n`);
+  the unary HTTP body and every WebSocket message (`gwsStream.send`) are built from `Transcode` directly. -/
+
+/-- `standardResponseTranscoder.Transcode` on top of the marshaler's output `p` -/
+def transcodeMsg (_b : Bound) (p : Bytes) : Bytes := p
+
+/-- seeded variant C13-m10: framing moved into the per-message `Transcode` of an SSE-bound transcoder -/
+def transcodeMsgM10 (b : Bound) (p : Bytes) : Bytes := if b.isSSE then dataPrefix ++ p ++ [LF, LF] else p
+
 /-! ## TranscodedHTTPBridge.ServeHTTP, as far as framing is concerned -/
 
 /-- grpc-gateway `HTTPStatusFromCode`. -/
@@ -167,6 +180,68 @@ def httpOutcome (ms : List Marshaler) (dflt : Marshaler) (r : BindReq) (wholeBod
         | _, .err c _ => { status := httpStatusFromCode c, ct := some ct, body := none }
         | _, _ => { status := 503, ct := some ct, body := none }
 
+/-! ## HTTP: the server-streaming loop as a sequence of write / flush events
+
+  `ProxyForwarder.forwardOutgoingToIncoming`: `for { outgoing.Recv(msg); Incoming.Send(msg) }`;
+  `httpStream.send` with a stream transcoder: `respstream.Transcode(msg)` — one `Write` of one framed record
+  (`jsonEncoder.Encode` / `sseResponseStream.Transcode`) — then `flusher.Flush()`. -/
+
+inductive WEv
+  /-- the target's `Recv` returned response `i` (0-based) -/
+  | targetRecv (i : Nat)
+  /-- one `Write` on the response -/
+  | write (b : Bytes)
+  /-- `http.Flusher.Flush` -/
+  | flush
+deriving DecidableEq, Repr
+
+/-- `httpStream.send` on a streamed response -/
+def sendEvents (sse : Bool) (p : Bytes) : List WEv := [.write (if sse then sseEvent p else jsonLine p), .flush]
+
+/-- `send` as it would be without the flush (seeded variant M2) -/
+def sendEventsNoFlush (sse : Bool) (p : Bytes) : List WEv := [.write (if sse then sseEvent p else jsonLine p)]
+
+/-- the response loop of the forwarder from message index `i` on -/
+def streamTraceFrom (send : Bytes → List WEv) : Nat → List Bytes → List WEv
+  | _, [] => []
+  | i, p :: rest => .targetRecv i :: send p ++ streamTraceFrom send (i + 1) rest
+
+def streamTrace (sse : Bool) (ps : List Bytes) : List WEv := streamTraceFrom (sendEvents sse) 0 ps
+
+/-- the response as the client can see it: written bytes sit in the server's buffer until a flush -/
+structure Wire where
+  buffered : Bytes
+  visible : Bytes
+deriving DecidableEq, Repr
+
+def wireStep (w : Wire) : WEv → Wire
+  | .write b => { w with buffered := w.buffered ++ b }
+  | .flush => { buffered := [], visible := w.visible ++ w.buffered }
+  | .targetRecv _ => w
+
+def wireRun (evs : List WEv) : Wire := evs.foldl wireStep { buffered := [], visible := [] }
+
+/-- model-free discipline on a trace: whenever the target is asked for the next message, and at the end,
+    nothing written is still unflushed (`dirty` = something was written since the last flush) -/
+def flushedBeforeRecv : Bool → List WEv → Bool
+  | dirty, [] => !dirty
+  | dirty, .targetRecv _ :: r => !dirty && flushedBeforeRecv false r
+  | _, .write _ :: r => flushedBeforeRecv true r
+  | _, .flush :: r => flushedBeforeRecv false r
+
+/-- the regenerated shape of `httpStream.send`'s streaming block: the statement right after the one that calls
+    `respstream.Transcode` is `s.flusher.Flush()` -/
+def flushFollowsTranscode (shape : List String) : Bool :=
+  match shape.dropWhile (· != "transcode") with
+  | "transcode" :: "flush" :: rest => !rest.contains "transcode"
+  | _ => false
+
+/-- each stream encoder performs exactly one `Write` per message, with the framed record as its argument -/
+def encoderWritesOK (ws : List (String × List String)) (delim : String) : Bool :=
+  ws == [("jsonEncoder.Encode", ["append(b,jsonDelimiter)"]),
+         ("sseResponseStream.Transcode", ["slices.Concat([]byte(\"data:\"),b,[]byte(\"\\n\\n\"))"])] &&
+  delim == "'\\n'"
+
 /-! ## WebSocket: outgoing messages -/
 
 structure WsMsg where
@@ -178,6 +253,18 @@ deriving DecidableEq, Repr
 def wsSend (binary : Bool) (p : Bytes) : WsMsg := { binary, payload := p }
 
 def wsOut (binary : Bool) (ps : List Bytes) : List WsMsg := ps.map (wsSend binary)
+
+/-- the WebSocket messages of a call bound as `b` (the handshake's headers went through `bind`): built from
+    the per-message `Transcode`, never from a stream encoder -/
+def wsFrames (tc : Bound → Bytes → Bytes) (b : Bound) (ps : List Bytes) : List WsMsg :=
+  ps.map (fun p => wsSend b.respM.binary (tc b p))
+
+/-- the HTTP stream body of a call bound as `b`: stream encoder on top of `Transcode` (with the variant's
+    `Transcode` the SSE encoder writes its result as is) -/
+def httpStreamBody (b : Bound) (ps : List Bytes) : Bytes := streamBody b.isSSE (ps.map (transcodeMsg b))
+
+def httpStreamBodyM10 (b : Bound) (ps : List Bytes) : Bytes :=
+  ps.flatMap (fun p => if b.isSSE then transcodeMsgM10 b p else jsonLine (transcodeMsgM10 b p))
 
 /-! ## WebSocket: close frame -/
 
@@ -226,6 +313,63 @@ def websocketError : FwdResult → Nat × Bytes
 /-- `utf8.RuneStart`. -/
 def runeStart (b : UInt8) : Bool := b &&& 0xC0 != 0x80
 
+/-! ### UTF-8 as Go's `unicode/utf8` accepts it
+
+  A byte-at-a-time acceptor with the accept ranges of `utf8.first` / `utf8.acceptRanges`: no overlong forms
+  (`C0`, `C1`, `E0 80..9F`, `F0 80..8F`), no surrogates (`ED A0..BF`), nothing above U+10FFFF (`F4 90..`, `F5..FF`). -/
+
+inductive U8
+  | start          -- between runes
+  | c1             -- one continuation byte to go
+  | c2 | c2e0 | c2ed   -- two to go (generic / after E0: A0..BF / after ED: 80..9F)
+  | c3 | c3f0 | c3f4   -- three to go (generic / after F0: 90..BF / after F4: 80..8F)
+  | bad
+deriving DecidableEq, Repr
+
+def utf8Step (q : U8) (b : UInt8) : U8 :=
+  match q with
+  | .start =>
+    if b.toNat < 0x80 then .start else if b.toNat < 0xC2 then .bad else if b.toNat < 0xE0 then .c1
+    else if b.toNat = 0xE0 then .c2e0 else if b.toNat = 0xED then .c2ed else if b.toNat < 0xF0 then .c2
+    else if b.toNat = 0xF0 then .c3f0 else if b.toNat < 0xF4 then .c3 else if b.toNat = 0xF4 then .c3f4 else .bad
+  | .c1 => if 0x80 ≤ b.toNat ∧ b.toNat < 0xC0 then .start else .bad
+  | .c2 => if 0x80 ≤ b.toNat ∧ b.toNat < 0xC0 then .c1 else .bad
+  | .c2e0 => if 0xA0 ≤ b.toNat ∧ b.toNat < 0xC0 then .c1 else .bad
+  | .c2ed => if 0x80 ≤ b.toNat ∧ b.toNat < 0xA0 then .c1 else .bad
+  | .c3 => if 0x80 ≤ b.toNat ∧ b.toNat < 0xC0 then .c2 else .bad
+  | .c3f0 => if 0x90 ≤ b.toNat ∧ b.toNat < 0xC0 then .c2 else .bad
+  | .c3f4 => if 0x80 ≤ b.toNat ∧ b.toNat < 0x90 then .c2 else .bad
+  | .bad => .bad
+
+/-- `utf8.Valid` / `utf8.ValidString` -/
+def ValidUTF8 (s : Bytes) : Bool := s.foldl utf8Step .start == .start
+
+/-- the first `n` bytes of `s` exist and form whole runes -/
+def okPrefix (s : Bytes) (n : Nat) : Bool := n ≤ s.length && (s.take n).foldl utf8Step .start == .start
+
+/-- `utf8.DecodeRuneInString(s)`, as far as its width is concerned: `some n` = a well-formed rune of `n`
+    bytes starts `s`; `none` = `(RuneError, 1)` (or `s` is empty) -/
+def runeLen (s : Bytes) : Option Nat :=
+  if okPrefix s 1 then some 1 else if okPrefix s 2 then some 2 else if okPrefix s 3 then some 3
+  else if okPrefix s 4 then some 4 else none
+
+/-- `"\uFFFD"` -/
+def replacementChar : Bytes := [0xEF, 0xBF, 0xBD]
+
+/-- the main loop of `strings.ToValidUTF8(s, "\uFFFD")`: well-formed runes are copied, every *run* of bytes
+    that start no well-formed rune becomes one replacement character (`invalid` = the previous byte was
+    such a byte). `fuel` ≥ the remaining length. (The function's first loop only finds the first invalid
+    byte and copies what precedes it — the same as running this loop from the start.) -/
+def toValidAux : Nat → Bool → Bytes → Bytes
+  | 0, _, _ => []
+  | _, _, [] => []
+  | fuel + 1, invalid, c :: rest =>
+    match runeLen (c :: rest) with
+    | some n => (c :: rest).take n ++ toValidAux fuel false ((c :: rest).drop n)
+    | none => (if invalid then [] else replacementChar) ++ toValidAux fuel true rest
+
+def toValidUTF8 (s : Bytes) : Bytes := toValidAux s.length false s
+
 /-- `for n > 0 && !utf8.RuneStart(reason[n]) { n-- }` -/
 def truncPoint (r : Bytes) : Nat → Nat
   | 0 => 0
@@ -235,10 +379,13 @@ def truncPoint (r : Bytes) : Nat → Nat
 
 def maxCloseReasonLen : Nat := 123
 
-/-- `closeReason` (webbridge/websocket.go) on a reason that is valid UTF-8 (`strings.ToValidUTF8`
-    is then the identity): cut at most 123 bytes, on a rune boundary. -/
+/-- `closeReason` (webbridge/websocket.go) AFTER its first statement `reason = strings.ToValidUTF8(reason, "\uFFFD")`:
+    cut at most 123 bytes, backing off to a rune start. (Name kept from the earlier rounds — C17 refers to it.) -/
 def closeReason (r : Bytes) : Bytes :=
   if r.length ≤ maxCloseReasonLen then r else r.take (truncPoint r maxCloseReasonLen)
+
+/-- `closeReason` (webbridge/websocket.go), the whole function: `strings.ToValidUTF8(reason, "\uFFFD")`, then the cut. -/
+def closeReasonWhole (r : Bytes) : Bytes := closeReason (toValidUTF8 r)
 
 /-- gws `Conn.emitError`: code ++ reason, cut to 125 bytes (environment fact). -/
 def gwsClosePayload (code : Nat) (reason : Bytes) : Bytes :=
@@ -247,7 +394,7 @@ def gwsClosePayload (code : Nat) (reason : Bytes) : Bytes :=
 /-- The close frame a client sees when `ServeHTTP` ends with `res`: (code, reason). -/
 def closeFrame (res : FwdResult) : Nat × Bytes :=
   let (c, r) := websocketError res
-  (c, (gwsClosePayload c (closeReason r)).drop 2)
+  (c, (gwsClosePayload c (closeReasonWhole r)).drop 2)
 
 /-- Before the fix the reason went to gws unmodified. -/
 def closeFramePreFix (res : FwdResult) : Nat × Bytes :=
@@ -390,11 +537,56 @@ def step (cfg : Cfg) (s : St) : Lbl → Option St
   | .recvCtx =>
     if s.recv = .waiting ∧ s.cancelled = true then some { s with recv := .stopped, result := some .ctx } else none
   | .cancel => some { s with cancelled := true }
-  | .closeDone => if s.recv ≠ .waiting then some { s with done := true } else none
+  -- `close(stream.done)` runs once, after `Forward` returned (no `Recv` in progress)
+  | .closeDone => if s.recv ≠ .waiting ∧ s.done = false then some { s with done := true } else none
+  -- `go func() { defer wg.Done(); defer cancel(); socket.ReadLoop() }()`: when the loop returns the call's
+  -- context is cancelled (and `wg.Wait()` in the epilogue is released)
   | .readerExit =>
     match s.reader with
-    | .idle => some { s with reader := .exited }
+    | .idle => some { s with reader := .exited, cancelled := true }
     | _ => none
+
+/-! ## WebSocket: progress of the hand-off (who can move, who waits for whom) -/
+
+/-- `ServeHTTP` has returned: `close(done)` ran and `wg.Wait()` was released by the read-loop goroutine. -/
+def returned (s : St) : Bool := s.done && s.reader == .exited
+
+/-- moves of the environment: the client writes a frame; the request context is cancelled from outside.
+    (`readerExit` — the socket read fails because the client closed or dropped the connection — is the third
+    one while the call is live; once the close frame is out it is forced by the read deadline, see `internalAt`.) -/
+def isEnv : Lbl → Bool
+  | .clientSend _ => true
+  | .cancel => true
+  | _ => false
+
+/-- moves that need nobody outside the bridge: the read loop (`read`, `onDone`, `finishOnMessage`), the
+    rendezvous (`handoff`), `Recv` returning (`recvClosed`, `recvCtx`), and — ENVIRONMENT ASSUMPTION on the
+    forwarder, stated here and nowhere else — the forwarder calling `Recv` again (`recvCall`: in a loop for
+    client streaming, once otherwise) or `Forward` returning (`closeDone`: whenever no `Recv` is in progress;
+    C01/C02 prove that ProxyForwarder returns after a `Recv` error or the end of the target's stream).
+    After `close(done)` the epilogue has set a read deadline (`wsCloseTimeout`), so `ReadLoop` returns even
+    if the client stays silent: `readerExit` is then internal too. -/
+def internalAt (s : St) : Lbl → Bool
+  | .clientSend _ => false
+  | .cancel => false
+  | .readerExit => s.done
+  | _ => true
+
+/-- the one way the call legitimately stands still: `Recv` waits for a frame, the read loop is idle with
+    nothing to read, nobody has cancelled — everything waits for the CLIENT, who can always move
+    (`clientSend`, or close the socket: `readerExit`, which cancels the context) -/
+def awaitingClient (s : St) : Bool :=
+  !s.done && s.recv == .waiting && s.reader == .idle && s.pending.isEmpty && !s.cancelled && !s.eventsClosed
+
+def readerRank : Reader → Nat
+  | .offering _ => 5 | .closing => 2 | .idle => 1 | .exited => 0
+
+def recvRank : RecvSt → Nat
+  | .idle => 2 | .waiting => 1 | .stopped => 0
+
+/-- variant: strictly decreased by every move that is not the environment's -/
+def rank (s : St) : Nat :=
+  6 * s.pending.length + readerRank s.reader + recvRank s.recv + (if s.done then 0 else 1) + (if s.calls = 0 then 1 else 0)
 
 /-! ## WebSocket: the sequential reading of the hand-off (used by the driver and the theorems) -/
 
